@@ -6,7 +6,7 @@
 set -u
 src="$1"; name="$2"
 export GOFLAGS=-mod=mod GOPROXY=off GOSUMDB=off GOTOOLCHAIN=local PATH=/opt/veriftools/go1.26.8/bin:$PATH; unset GOWORK
-W=/var/tmp/probe
+W=/var/tmp/confirm
 cd $W || exit 2
 git checkout -q -- . ; rm -rf seeddemo
 demo_cmd=$(python3 -c "import json;print(json.load(open('$src/meta.json'))['demo_cmd'])")
@@ -28,7 +28,7 @@ mkdir -p /verif/seeded/$name && cp "$src/patch.diff" /verif/seeded/$name/ && rm 
 python3 - "$src/meta.json" "/verif/seeded/$name/meta.json" <<'PY'
 import json,sys
 m=json.load(open(sys.argv[1]))
-m['confirmed_by_me']={"worktree":"/var/tmp/probe (git worktree of /repo HEAD incl. fix commits)","steps":["baseline demo passes","git apply patch.diff; go build ./... ok","demo fails with mutant","go test -vet=off -count=1 ./... : only test/units/gast/versioning and test/visitors/route fail (as on the unchanged tree)","reverted"]}
+m['confirmed_by_me']={"worktree":"/var/tmp/confirm (git worktree of /repo HEAD incl. fix commits)","steps":["baseline demo passes","git apply patch.diff; go build ./... ok","demo fails with mutant","go test -vet=off -count=1 ./... : only test/units/gast/versioning and test/visitors/route fail (as on the unchanged tree)","reverted"]}
 json.dump(m,open(sys.argv[2],'w'),indent=1)
 PY
 echo "CONFIRMED $name"
